@@ -57,12 +57,32 @@ Active(votes, h) == {v \in Validators : ParamsAt(votes.params, h).w[v] > 0}
 RECURSIVE WeightOf(_, _)
 WeightOf(S, w) == IF S = {} THEN 0 ELSE LET x == CHOOSE y \in S : TRUE IN w[x] + WeightOf(S \ {x}, w)
 
+\* tunables of the candidate part: DEFINED operators with defaults (Certificate.tla / Generator.tla extend this module), a
+\* configuration overrides them (`AllSignerSets <- TrueC`, `Shapes <- ShapesWide`)
+AllSignerSets == FALSE   \* TRUE: every MINIMAL signer set reaching the certificate threshold is offered (unequal weights)
+\* <<ntx, payload, ts>> of the valid successors: payload "max" = transactions of exactly the maximal total size;
+\* ts = where inside its slot the block is stamped: "mid", "last" (last second of the slot), "first" (first second)
+Shapes == {<<0, "ok", "mid">>, <<1, "ok", "mid">>}
+\* the candidate field `ts` is optional (absent = "mid"): records built elsewhere keep their shape
+WithTs(c, t) == IF t = "mid" THEN c ELSE [ts |-> t] @@ c
+TsOf(c) == IF "ts" \in DOMAIN c THEN c.ts ELSE "mid"
+
+\* signer sets just above the certificate threshold (dropping any signer falls below it) and just below it (adding any
+\* other active validator reaches it)
+MinimalSets(votes, h) ==
+  LET p == ParamsAt(votes.params, h) IN
+  {S \in SUBSET Active(votes, h) : WeightOf(S, p.w) >= p.certT /\ \A v \in S : WeightOf(S \ {v}, p.w) < p.certT}
+LightSets(votes, h) ==
+  LET p == ParamsAt(votes.params, h)  act == Active(votes, h) IN
+  {S \in SUBSET act : S # {} /\ WeightOf(S, p.w) < p.certT /\ \A v \in act \ S : WeightOf(S \cup {v}, p.w) >= p.certT}
+
 \* signer sets offered for a valid aggregate commit at height h: everybody, or a smallest-index prefix reaching the threshold
 SignerSets(votes, h) ==
   LET p == ParamsAt(votes.params, h)
       act == Active(votes, h)
       prefixes == {{v \in act : v <= k} : k \in Validators}
-  IN {act} \cup {S \in prefixes : WeightOf(S, p.w) >= p.certT /\ \A T \in prefixes : (WeightOf(T, p.w) >= p.certT) => Cardinality(S) <= Cardinality(T)}
+  IN IF AllSignerSets THEN {act} \cup MinimalSets(votes, h) ELSE
+     {act} \cup {S \in prefixes : WeightOf(S, p.w) >= p.certT /\ \A T \in prefixes : (WeightOf(T, p.w) >= p.certT) => Cardinality(S) <= Cardinality(T)}
 
 \* verifyAggregateCommit
 ACOk(votes, ac) ==
@@ -81,27 +101,28 @@ Accept(c) ==
   /\ c.version = 2
   /\ c.h = Tip.h + 1 /\ c.prev = "tip"
   /\ c.slot > Tip.slot /\ c.slot <= Now
-  /\ c.gen = GenAt(V, Tip.h + 1, c.slot)
   /\ c.signer = c.gen /\ c.sig = "ok"
   /\ c.mhp = V.mhpv
+  /\ c.txRoot = "ok" /\ c.assetRoot = "ok" /\ c.eventRoot = "ok" /\ c.stateRoot = "ok" /\ c.vhash = "ok"
+  /\ c.txStatic = "ok" /\ c.payload \in {"ok", "max"}      \* "max": exactly the maximal payload size is still valid
+  \* (the conjuncts that cost TLC most come last: most mutants are decided by a field comparison above)
+  /\ c.gen = GenAt(V, Tip.h + 1, c.slot)
   /\ ~ContraChain(V, Hdr(c))
   /\ ACOk(V, c.ac)
-  /\ c.txRoot = "ok" /\ c.assetRoot = "ok" /\ c.eventRoot = "ok" /\ c.stateRoot = "ok" /\ c.vhash = "ok"
-  /\ c.txStatic = "ok" /\ c.payload = "ok"
 
 \* the valid successors offered at the current state
 ValidCands ==
-  {[version |-> 2, h |-> Tip.h + 1, prev |-> "tip", slot |-> s, gen |-> GenAt(V, Tip.h + 1, s), signer |-> GenAt(V, Tip.h + 1, s),
+  {WithTs([version |-> 2, h |-> Tip.h + 1, prev |-> "tip", slot |-> s, gen |-> GenAt(V, Tip.h + 1, s), signer |-> GenAt(V, Tip.h + 1, s),
     sig |-> "ok", mhp |-> V.mhpv, mhg |-> LastForged(GenAt(V, Tip.h + 1, s)), ac |-> ac,
-    txRoot |-> "ok", assetRoot |-> "ok", eventRoot |-> "ok", stateRoot |-> "ok", vhash |-> "ok", txStatic |-> "ok", payload |-> "ok",
-    chg |-> chg, ntx |-> ntx, mut |-> "none"] :
+    txRoot |-> "ok", assetRoot |-> "ok", eventRoot |-> "ok", stateRoot |-> "ok", vhash |-> "ok", txStatic |-> "ok", payload |-> sh[2],
+    chg |-> chg, ntx |-> sh[1], mut |-> "none"], sh[3]) :
       s \in (Tip.slot + 1)..Min2(Now, Tip.slot + 2),
       ac \in {[h |-> V.cert, kind |-> "empty", signers |-> {}]} \cup
              {[h |-> pr[1], kind |-> "valid", signers |-> pr[2]] :
                  pr \in UNION {{<<x, S>> : S \in SignerSets(V, x)} :
                                x \in {y \in (V.cert + 1)..V.mhpc : LET nx == NextParamsHeight(V.params, V.cert + 1) IN nx = 0 \/ y <= nx - 1}}},
       chg \in {x \in 0..Len(ParamChoices) : x = 0 \/ NChg < MaxChg},
-      ntx \in 0..1}
+      sh \in Shapes}
 
 OtherGen(g) == CHOOSE v \in Validators : v # g
 Mutate(c, m) ==
@@ -141,6 +162,37 @@ Mutate(c, m) ==
     [] m = "vhash"            -> [c EXCEPT !.vhash = "bad", !.mut = m]
     [] m = "tx-static"        -> [c EXCEPT !.txStatic = "bad", !.ntx = 1, !.mut = m]
     [] m = "payload-size"     -> [c EXCEPT !.payload = "toolarge", !.ntx = 1, !.mut = m]
+    \* ---- the other side / the other values of the single-valued mutants above
+    [] m = "version-0"        -> [c EXCEPT !.version = 0, !.mut = m]
+    [] m = "version-3"        -> [c EXCEPT !.version = 3, !.mut = m]
+    [] m = "mhp-1"            -> (IF V.mhpv > 0 THEN [c EXCEPT !.mhp = @ - 1, !.mut = m] ELSE c)
+    \* a slot BEFORE the tip's, by that slot's generator
+    [] m = "slot-past"        -> (IF Tip.slot >= 2 THEN [c EXCEPT !.slot = Tip.slot - 1, !.gen = GenAt(V, Tip.h + 1, Tip.slot - 1), !.signer = GenAt(V, Tip.h + 1, Tip.slot - 1), !.mut = m] ELSE c)
+    \* the boundaries in seconds: the last second of the tip's slot, the first second of the first future slot
+    [] m = "slot-same-last"   -> WithTs([c EXCEPT !.slot = Tip.slot, !.gen = GenAt(V, Tip.h + 1, Tip.slot), !.signer = GenAt(V, Tip.h + 1, Tip.slot), !.mut = m], "last")
+    [] m = "slot-future-first" -> WithTs([c EXCEPT !.slot = Now + 1, !.gen = GenAt(V, Tip.h + 1, Now + 1), !.signer = GenAt(V, Tip.h + 1, Now + 1), !.mut = m], "first")
+    \* the aggregate commit is replaced after signing (stripped when the candidate carries one, added when it carries
+    \* none): every other rule holds for the header as it arrives, only the signature does not cover it
+    [] m = "sig-stale-ac"     -> [c EXCEPT !.sig = "stale-ac", !.mut = m]
+    \* ---- each static rule of a transaction on its own; the malformed transaction is the LAST of the payload
+    [] m = "tx-static-command"     -> [c EXCEPT !.txStatic = "bad-command", !.ntx = 1, !.mut = m]
+    [] m = "tx-static-params-size" -> [c EXCEPT !.txStatic = "bad-params-size", !.ntx = 1, !.mut = m]
+    [] m = "tx-static-sender-len"  -> [c EXCEPT !.txStatic = "bad-sender-len", !.ntx = 1, !.mut = m]
+    [] m = "tx-static-no-sigs"     -> [c EXCEPT !.txStatic = "no-sigs", !.ntx = 1, !.mut = m]
+    [] m = "tx-static-short-sig"   -> [c EXCEPT !.txStatic = "short-sig", !.ntx = 1, !.mut = m]
+    [] m = "tx-static-last"        -> [c EXCEPT !.txStatic = "bad", !.ntx = 3, !.mut = m]
+    \* two assets whose root matches but whose modules are not sorted / not unique
+    [] m = "assets-unsorted"  -> [c EXCEPT !.assetRoot = "unsorted", !.mut = m]
+    [] m = "assets-duplicate" -> [c EXCEPT !.assetRoot = "duplicate", !.mut = m]
+    \* the root over truly different events (one data byte / one topic of the last event changed), not a flipped root
+    [] m = "eventroot-altered-data"  -> [c EXCEPT !.eventRoot = "altered-data", !.ntx = 1, !.mut = m]
+    [] m = "eventroot-altered-topic" -> [c EXCEPT !.eventRoot = "altered-topic", !.ntx = 1, !.mut = m]
+    \* the hash of ANOTHER well-formed validator set: of a parameter choice the block does not switch to, and - for a
+    \* block that does switch - the hash of the set in force before
+    [] m = "vhash-other-set"  -> [c EXCEPT !.vhash = "other-set", !.mut = m]
+    [] m = "vhash-old-on-change" -> (IF NChg = 0 /\ Len(ParamChoices) > 0 THEN [c EXCEPT !.vhash = "old", !.chg = 1, !.mut = m] ELSE c)
+    \* one byte more than the maximal payload size
+    [] m = "payload-max+1"    -> [c EXCEPT !.payload = "max+1", !.ntx = 2, !.mut = m]
 
 AfterBlock(c) ==
   LET v1 == Apply(V, Hdr(c))
@@ -156,37 +208,96 @@ Step(c, accepted, ch, vs, f, tp, ev, newEvents) ==
   [op |-> "block", version |-> c.version, h |-> c.h, prev |-> c.prev, slot |-> c.slot, gen |-> c.gen, signer |-> c.signer, sig |-> c.sig,
    mhp |-> c.mhp, mhg |-> c.mhg, ac |-> AcJson(c.ac), txRoot |-> c.txRoot, assetRoot |-> c.assetRoot, eventRoot |-> c.eventRoot,
    stateRoot |-> c.stateRoot, vhash |-> c.vhash, txStatic |-> c.txStatic, payload |-> c.payload, chg |-> c.chg, ntx |-> c.ntx, mut |-> c.mut,
+   ts |-> TsOf(c),
    accepted |-> accepted, events |-> newEvents, obs |-> Obs(ch, vs, f, tp, ev)]
+
+\* tunables of the script actions: DEFINED operators whose defaults are the behaviour before they existed (Certificate.tla
+\* and Generator.tla extend this module, so they are no CONSTANTS); a configuration overrides them (`MaxRestart = 2`)
+MaxRestart == 1          \* restarts per script
+MaxBadTie == 1           \* invalid tie-break competitors per script
+MaxMutant == 0           \* invalid successors submitted in the middle of a script (SubmitMutant)
+MidMutations == {"stateroot", "vhash", "eventroot", "sig-wrongkey"}   \* three rules checked late in processValidated, one early
+KeepFinZero == FALSE     \* TRUE: only successors that finalize nothing (no delete is ever refused: many apply / remove cycles)
+RevertFrom == 0          \* deletes / tie breaks / restarts only on chains of at least this length (the region where the BFT window slides)
+\* TRUE: deletes and tie breaks only while one of the two topmost blocks pruned BFT parameters / generator keys when it was
+\* applied (Prune of LiskBFT.tla removed an entry): the runs aimed at reverting exactly those blocks
+RevertNearPrune == FALSE
+PrunedAt(i) == \E a \in 1..Len(vstack[i].params) : \A b \in 1..Len(vstack[i + 1].params) : vstack[i + 1].params[b].from # vstack[i].params[a].from
+RecentPrune == \E i \in Max2(1, Len(chain) - 1)..Len(chain) : PrunedAt(i)
+\* TRUE: the payload of an applied block is a function of its height and slot instead of the candidate's own shape: 0..3
+\* transactions and - independently of a validator change - an asset that is none (siblings at one height differ in
+\* both; a function rather than a choice, so that the simulation does not branch six-fold at every block)
+PayloadMix == FALSE
+MixNtx(c) == (c.slot + (c.h \div 2)) % 4
+MixAsset(c) == (c.h + c.slot) % 2 = 0
+TieNtx == {0}            \* transactions of a tie-break competitor
+TieChg == {0}            \* validator change carried by a tie-break competitor (index into ParamChoices, 0 = none)
 
 Init == /\ chain = <<>> /\ vstack = <<Genesis0>> /\ fin = 0 /\ temp = {} /\ evlog = <<>> /\ script = <<>> /\ recvKnown = FALSE
 
 SubmitValid ==
   /\ Len(chain) < MaxLen /\ Len(script) < MaxSteps
-  /\ \E c \in ValidCands :
+  /\ \E c0 \in ValidCands :
+      LET c == IF PayloadMix /\ c0.payload = "ok" THEN [c0 EXCEPT !.ntx = MixNtx(c0)] ELSE c0
+          asset == PayloadMix /\ MixAsset(c0) IN
        /\ Accept(c)
        /\ LET v2 == AfterBlock(c)
               f2 == Max2(fin, v2.mhpc)
               ne == (IF v2.mhpc > fin THEN <<<<"finalize", fin, v2.mhpc>>>> ELSE <<>>) \o <<<<"new", c.h, 0>>>>
                     \o (IF c.chg # 0 THEN <<<<"validators", c.h, 0>>>> ELSE <<>>)
-          IN /\ chain' = Append(chain, [h |-> c.h, slot |-> c.slot, gen |-> c.gen, mhg |-> c.mhg, mhp |-> c.mhp, chg |-> c.chg, ntx |-> c.ntx])
+          IN /\ (KeepFinZero => v2.mhpc = 0)
+             /\ chain' = Append(chain, [h |-> c.h, slot |-> c.slot, gen |-> c.gen, mhg |-> c.mhg, mhp |-> c.mhp, chg |-> c.chg, ntx |-> c.ntx])
              /\ vstack' = Append(vstack, v2)
              /\ fin' = f2
              /\ evlog' = evlog \o ne
              /\ temp' = temp
-             /\ script' = Append(script, Step(c, TRUE, chain', vstack', f2, temp, evlog', ne))
+             /\ script' = Append(script, [asset |-> asset] @@ Step(c, TRUE, chain', vstack', f2, temp, evlog', ne))
              /\ recvKnown' = TRUE
 
+\* an INVALID successor (one rule violated) in the middle of a behaviour, through the ordinary branch of process(): it is
+\* rejected - three of the rules only after the block was executed -, nothing changes, nothing is published, and whatever
+\* is applied later is applied and published as usual (finalize events of later raises included)
+NMutant == Cardinality({i \in 1..Len(script) : script[i].op = "mutant"})
+SubmitMutant ==
+  /\ Len(script) < MaxSteps /\ Len(chain) < MaxLen /\ NMutant < MaxMutant
+  /\ UNCHANGED <<chain, vstack, fin, temp, evlog, recvKnown>>
+  /\ \E c0 \in {x \in ValidCands : x.chg = 0 /\ x.ntx = 0 /\ x.payload = "ok" /\ TsOf(x) = "mid" /\ x.ac.kind = "empty"}, m \in MidMutations :
+       LET c == Mutate(c0, m) IN
+       /\ ~Accept(c)
+       /\ script' = Append(script, [Step(c, FALSE, chain, vstack, fin, temp, evlog, <<>>) EXCEPT !.op = "mutant"])
+
 \* single-rule mutants of the valid successors of the current state (all must be rejected and change nothing)
+\* mutations that are also applied to a base candidate CARRYING a valid aggregate commit (their `mut` ends in "@ac")
+\* (only rules the engine checks AFTER the aggregate commit: the signature, the execution result)
+AcBaseMutations == {"sig-stale-ac", "sig-stale", "sig-wrongkey", "stateroot"}
+\* mutations that yield a SET of candidates per base candidate (handled in Probes, not by Mutate)
+SetMutations == {"ac-lightsigners"}
+AcHeights == {y \in (V.cert + 1)..V.mhpc : LET nx == NextParamsHeight(V.params, V.cert + 1) IN nx = 0 \/ y <= nx - 1}
+PlainCands == {c0 \in ValidCands : c0.chg = 0 /\ c0.ntx = 0 /\ c0.slot = Tip.slot + 1 /\ c0.payload = "ok" /\ TsOf(c0) = "mid"}
+ProbeBase == {c0 \in PlainCands : c0.ac.kind = "empty"}
+\* spec-level sanity of the mutation catalogue (the filter `~Accept` in Probes would silently drop a mutant that breaks no
+\* rule): a mutation either does not apply in this state (the candidate comes back unchanged) or the result violates a rule
+\* ("mhg-noclaim" is conditional by design: a header that claims nothing is invalid only where it contradicts an earlier one)
+MutantsInvalid == \A c0 \in ProbeBase : \A m \in Mutations \ (SetMutations \cup {"mhg-noclaim"}) : LET c == Mutate(c0, m) IN [c EXCEPT !.mut = "none"] = c0 \/ ~Accept(c)
 Probes ==
-  LET base == {c0 \in ValidCands : c0.chg = 0 /\ c0.ntx = 0 /\ c0.slot = Tip.slot + 1 /\ c0.ac.kind = "empty"}
-      muts == {Mutate(c0, m) : c0 \in base, m \in Mutations}
-  IN IF Len(chain) >= MaxLen THEN {} ELSE {c \in muts : ~Accept(c)}
+  LET plain == PlainCands
+      base == {c0 \in plain : c0.ac.kind = "empty"}      \* = ProbeBase
+      top == IF AcHeights = {} THEN 0 ELSE CHOOSE x \in AcHeights : \A y \in AcHeights : y <= x
+      acbase == IF top = 0 THEN {} ELSE {c0 \in plain : c0.ac.kind = "valid" /\ c0.ac.h = top /\ c0.ac.signers = Active(V, top)}
+      muts == {Mutate(c0, m) : c0 \in base, m \in Mutations \ SetMutations}
+      acmuts == {[Mutate(c0, m) EXCEPT !.mut = @ \o "@ac"] : c0 \in acbase, m \in Mutations \cap AcBaseMutations}
+      \* a certificate of the highest certifiable block signed by validators whose weight stays just below the threshold
+      light == IF "ac-lightsigners" \in Mutations /\ top > 0
+               THEN {[c0 EXCEPT !.ac = [h |-> top, kind |-> "valid", signers |-> S], !.mut = "ac-lightsigners"] : c0 \in base, S \in LightSets(V, top)}
+               ELSE {}
+  IN IF Len(chain) >= MaxLen THEN {} ELSE {c \in muts \cup acmuts \cup light : ~Accept(c)}
 
 
 NDel == Cardinality({i \in 1..Len(script) : script[i].op = "delete"})
 NRestart == Cardinality({i \in 1..Len(script) : script[i].op = "restart"})
 DeleteTip ==
-  /\ Len(script) < MaxSteps /\ Len(chain) > 0 /\ NDel < MaxDel /\ UNCHANGED recvKnown /\ (DeepRevert => fin > 0)
+  /\ Len(script) < MaxSteps /\ Len(chain) > 0 /\ NDel < MaxDel /\ UNCHANGED recvKnown /\ (DeepRevert => fin > 0) /\ Len(chain) >= RevertFrom
+  /\ (RevertNearPrune => RecentPrune)
   /\ \E saveTemp \in BOOLEAN :
        IF Tip.h <= fin
        THEN /\ script' = Append(script, [op |-> "delete", saveTemp |-> saveTemp, ok |-> FALSE, events |-> <<>>, obs |-> Obs(chain, vstack, fin, temp, evlog)])
@@ -214,6 +325,7 @@ DownSteps(ch, vs, tp, ev) ==
                \o DownSteps(ch2, vs2, tp2, ev2)
 DeleteDown ==
   /\ Len(script) < MaxSteps /\ NDel < MaxDel /\ fin > 0 /\ Len(chain) > fin /\ UNCHANGED recvKnown
+  /\ Len(chain) >= RevertFrom /\ (RevertNearPrune => \E i \in (fin + 1)..Len(chain) : PrunedAt(i))
   /\ chain' = SubSeq(chain, 1, fin)
   /\ vstack' = SubSeq(vstack, 1, fin + 1)
   /\ temp' = temp \cup (fin + 1)..Len(chain)
@@ -244,7 +356,17 @@ TieProbes ==
         [TieBreakCand EXCEPT !.txRoot = "bad", !.ntx = 1, !.mut = "tiebreak-txroot"],
         [TieBreakCand EXCEPT !.assetRoot = "bad", !.mut = "tiebreak-assetroot"],
         [TieBreakCand EXCEPT !.txStatic = "bad", !.ntx = 1, !.mut = "tiebreak-txstatic"],
-        [TieBreakCand EXCEPT !.payload = "toolarge", !.ntx = 1, !.mut = "tiebreak-payload"]}
+        [TieBreakCand EXCEPT !.payload = "toolarge", !.ntx = 1, !.mut = "tiebreak-payload"],
+        \* each static transaction rule on its own (the malformed transaction last), invalid asset lists, one byte too many
+        [TieBreakCand EXCEPT !.txStatic = "bad-command", !.ntx = 1, !.mut = "tiebreak-txstatic-command"],
+        [TieBreakCand EXCEPT !.txStatic = "bad-params-size", !.ntx = 1, !.mut = "tiebreak-txstatic-params-size"],
+        [TieBreakCand EXCEPT !.txStatic = "bad-sender-len", !.ntx = 1, !.mut = "tiebreak-txstatic-sender-len"],
+        [TieBreakCand EXCEPT !.txStatic = "no-sigs", !.ntx = 1, !.mut = "tiebreak-txstatic-no-sigs"],
+        [TieBreakCand EXCEPT !.txStatic = "short-sig", !.ntx = 1, !.mut = "tiebreak-txstatic-short-sig"],
+        [TieBreakCand EXCEPT !.txStatic = "bad", !.ntx = 3, !.mut = "tiebreak-txstatic-last"],
+        [TieBreakCand EXCEPT !.assetRoot = "unsorted", !.mut = "tiebreak-assets-unsorted"],
+        [TieBreakCand EXCEPT !.assetRoot = "duplicate", !.mut = "tiebreak-assets-duplicate"],
+        [TieBreakCand EXCEPT !.payload = "max+1", !.ntx = 2, !.mut = "tiebreak-payload-max+1"]}
   ELSE {}
 \* a second block by the tip's own generator for the same height (double forging) is discarded; so is the tip itself
 DoubleForgeProbe ==
@@ -254,10 +376,18 @@ DoubleForgeProbe ==
   ELSE {}
 
 NTie == Cardinality({i \in 1..Len(script) : script[i].op = "tiebreak"})
+NChgBelowTip == Cardinality({i \in 1..(Len(chain) - 1) : chain[i].chg # 0})
+\* the BFT state after block c on the state v (c may carry a validator change)
+AfterBlockOn(v, c) ==
+  LET v1 == Apply(v, Hdr(c))
+  IN IF c.chg = 0 THEN v1
+     ELSE SetGenKeys(SetParams(v1, ParamChoices[c.chg].pcT, ParamChoices[c.chg].certT, ParamChoices[c.chg].w), ParamChoices[c.chg].gens)
 SubmitTieBreak ==
-  /\ Len(script) < MaxSteps /\ Len(chain) >= 1 /\ Tip.slot < Now /\ NTie < MaxTie /\ (DeepRevert => fin > 0)
+  /\ Len(script) < MaxSteps /\ Len(chain) >= 1 /\ Tip.slot < Now /\ NTie < MaxTie /\ (DeepRevert => fin > 0) /\ Len(chain) >= RevertFrom
+  /\ (RevertNearPrune => RecentPrune)
   /\ UNCHANGED recvKnown        \* the tie-break branch is entered only when it is already TRUE
-  /\ LET c == TieBreakCand IN
+  /\ \E nx \in TieNtx, cg \in {x \in TieChg : x = 0 \/ (x <= Len(ParamChoices) /\ NChgBelowTip < MaxChg)} :
+     LET c == [TieBreakCand EXCEPT !.ntx = nx, !.chg = cg] IN
      /\ c.gen # Tip.gen                       \* same generator would be double forging (discarded)
      /\ c.mhp = Tip.mhp
      /\ ~ContraChain(ParentV, Hdr(c))
@@ -265,10 +395,11 @@ SubmitTieBreak ==
         THEN \* the tip is final (cannot be removed) or counts as synced (no tie break): nothing changes
              /\ script' = Append(script, [Step(c, FALSE, chain, vstack, fin, temp, evlog, <<>>) EXCEPT !.op = "tiebreak"])
              /\ UNCHANGED <<chain, vstack, fin, temp, evlog>>
-        ELSE LET v1 == Apply(ParentV, Hdr(c))
+        ELSE LET v1 == AfterBlockOn(ParentV, c)
                  f2 == Max2(fin, v1.mhpc)
                  ne == <<<<"delete", Tip.h, 0>>>> \o (IF v1.mhpc > fin THEN <<<<"finalize", fin, v1.mhpc>>>> ELSE <<>>) \o <<<<"new", c.h, 0>>>>
-             IN /\ chain' = Append(SubSeq(chain, 1, Len(chain) - 1), [h |-> c.h, slot |-> c.slot, gen |-> c.gen, mhg |-> c.mhg, mhp |-> c.mhp, chg |-> 0, ntx |-> 0])
+                       \o (IF c.chg # 0 THEN <<<<"validators", c.h, 0>>>> ELSE <<>>)
+             IN /\ chain' = Append(SubSeq(chain, 1, Len(chain) - 1), [h |-> c.h, slot |-> c.slot, gen |-> c.gen, mhg |-> c.mhg, mhp |-> c.mhp, chg |-> c.chg, ntx |-> c.ntx])
                 /\ vstack' = Append(SubSeq(vstack, 1, Len(vstack) - 1), v1)
                 /\ fin' = f2 /\ temp' = temp /\ evlog' = evlog \o ne
                 /\ script' = Append(script, [Step(c, TRUE, chain', vstack', f2, temp, evlog', ne) EXCEPT !.op = "tiebreak"])
@@ -278,18 +409,18 @@ SubmitTieBreak ==
 \* published as usual (the events of the attempt are held back and dropped, not the later ones)
 NBadTie == Cardinality({i \in 1..Len(script) : script[i].op = "tiebreak" /\ script[i].mut # "none"})
 SubmitBadTieBreak ==
-  /\ Len(script) < MaxSteps /\ NBadTie < 1 /\ ~DeepRevert
+  /\ Len(script) < MaxSteps /\ NBadTie < MaxBadTie /\ ~DeepRevert
   /\ UNCHANGED <<chain, vstack, fin, temp, evlog, recvKnown>>
   /\ \E c \in TieProbes :
        script' = Append(script, [Step(c, FALSE, chain, vstack, fin, temp, evlog, <<>>) EXCEPT !.op = "tiebreak"])
 
 Restart ==
-  /\ Len(script) < MaxSteps /\ Len(script) > 0 /\ NRestart < 1 /\ (DeepRevert => fin > 0)
+  /\ Len(script) < MaxSteps /\ Len(script) > 0 /\ NRestart < MaxRestart /\ (DeepRevert => fin > 0) /\ Len(chain) >= RevertFrom
   /\ script' = Append(script, [op |-> "restart", obs |-> Obs(chain, vstack, fin, temp, evlog)])
   /\ recvKnown' = FALSE
   /\ UNCHANGED <<chain, vstack, fin, temp, evlog>>
 
-Next == SubmitValid \/ SubmitTieBreak \/ SubmitBadTieBreak \/ DeleteTip \/ DeleteDown \/ Restart
+Next == SubmitValid \/ SubmitMutant \/ SubmitTieBreak \/ SubmitBadTieBreak \/ DeleteTip \/ DeleteDown \/ Restart
 Spec == Init /\ [][Next]_vars
 
 (* ------------------------------- properties ------------------------------ *)
